@@ -145,6 +145,9 @@ def reqRanks (S : Schema) : List Nat :=
 structure DecLaws (T : Txt) : Prop where
   undec_dec : ∀ n, T.undec (T.dec n) = some n
   dec_nosign : ∀ n ds, T.dec n ≠ 45 :: ds
+  dec_noplus : ∀ n ds, T.dec n ≠ 43 :: ds
+  /-- the decimal text the marshaler writes is read back by jsoniter's digit loop (no leading zero, no undetected wrap) -/
+  jnum_dec : ∀ w n, n < 2 ^ w → jiterUint w (T.dec n) = some n
 
 def bytesOk (b : List Nat) : Bool := b.all (· < 256)
 
